@@ -253,12 +253,16 @@ def Gen.C06.Site.safe (s : Gen.C06.Site) : Bool := s.allocFirst && s.marks && s.
 /-- **func_sites_mark_and_alloc**: every site follows the mark-then-allocate protocol. -/
 theorem func_sites_mark_and_alloc : Gen.C06.sites.all Gen.C06.Site.safe = true := by decide +kernel
 
-/-- **func_sites_release**: every wrapper releases its frame with `env.freeEnv4Func()` and has no
-    `return` before the release (op `ret` on every normal return). -/
-theorem func_sites_release : Gen.C06.sites.all (·.frees) = true := by decide +kernel
+/-- **func_sites_release**: every wrapper that can be entered releases its frame with
+    `env.freeEnv4Func()` and has no `return` before the release (op `ret` on every normal return).
+    `reachable = false` is computed structurally by the extractor: the site sits in the `default:`
+    clause of a `switch` on the parameter/result kind whose other clauses list every kind of
+    `base/reflect.IsOptimizedKind` (parsed from the source), and `funcCreate` enters the funcXretY
+    specialisations only for those kinds — dead code. -/
+theorem func_sites_release : Gen.C06.sites.all (fun s => !s.reachable || s.frees) = true := by decide +kernel
 
-/-- the table is not empty (the extractor found the sites) -/
-theorem func_sites_found : 600 ≤ Gen.C06.sites.length := by decide +kernel
+/-- the extractor found the sites, and (all but a handful of dead default clauses) are reachable -/
+theorem func_sites_found : 600 ≤ (Gen.C06.sites.filter (·.reachable)).length := by decide +kernel
 
 /-! ### non-vacuity: concrete histories that exercise the hypotheses -/
 
